@@ -1568,7 +1568,8 @@ class MiniInterp:
                 del obj[hits[0]]
                 return None
             if attr in ("join", "extend", "update", "fromkeys"):
-                args = [a.rest() if isinstance(a, (_Iter, LazyIter)) else list(a.xs) if isinstance(a, ISet) else a for a in args]
+                args = [a.rest() if isinstance(a, (_Iter, LazyIter)) else list(a.xs) if isinstance(a, ISet)
+                        else list(self.iterate(a)) if isinstance(a, Sym) and not isinstance(obj, dict) else a for a in args]
             try:
                 if isinstance(obj, dict) and attr in ("get", "pop", "setdefault") and args:
                     args = [self.key(args[0])] + args[1:]
